@@ -84,8 +84,15 @@ def step (st : St) (j : Json) : Except String (St × Json × List Fired) := do
         ((s.denoms.zip ia.stake).filter (fun (d, _) => allowedAfter.contains d)).foldl (fun acc (_, x) => acc + x) 0
       let maxLock := (ia.index.filter fun (_, k) => ivaults.any fun (k', b) => k' == k && b).foldl (fun m (p, _) => max m p) 0
       let reducing := op == "unstake" || op == "unstakeMulti" || op == "undelegate" || op == "redelegate"
+      -- the locks the SPECIFICATION knows of (every accepted lock request, whatever the implementation's index says)
+      let specLock := ((indexEntries s' a).filter fun (_, k) => ivaults.any fun (k', b) => k' == k && b).foldl (fun m (p, _) => max m p) 0
+      let maxLock := max maxLock specLock
       if reducing && (jnat j "acct").toOption == some a && power < maxLock then
         fired := fired ++ [{ name := "power_below_active_lock_after_withdrawal", detail := mkObj [("acct", jn a), ("power", jn power), ("lock", jn maxLock), ("op", js op)] }]
+      -- a standing lock is in the by-power index the withdrawal checks read (re-locking the same power keeps it there)
+      let missing := (indexEntries s' a).filter fun e => !(ia.index.any fun e' => e'.1 == e.1 && e'.2 == e.2)
+      if !missing.isEmpty then
+        fired := fired ++ [{ name := "standing_lock_missing_from_power_index", detail := mkObj [("acct", jn a), ("locks", jl (missing.map fun e => jl [jn e.1, js e.2]))] }]
     if op == "setLock" then
       let a ← jnat j "acct"
       let p ← jint j "power"
